@@ -245,6 +245,11 @@ class Run:
             raise Violation(f"a response was consumed twice: {ids}")
         for (app, addr), vals in arrays.items():
             have = ex._app_arrays[app]._arrays.get(addr)
+            if self.sc.get("array_prefix_only") and have is not None:
+                # result arrays deliberately larger than number * 10: the rest must stay undefined
+                if have[len(vals):] != [None] * (len(have) - len(vals)):
+                    raise Violation(f"result array @{addr} of app {app} = {have}: entries beyond the request's {len(vals) // 10} pair(s) were written")
+                have = have[:len(vals)]
             if have != vals:
                 raise Violation(f"result array @{addr} of app {app} = {have} but the matching rule gives {vals}")
         freed = {tuple(x) for x in self.sc.get("freed", [])}
